@@ -150,6 +150,31 @@ def f10_programs(rng, n):
     return out
 
 
+def bj_programs(rng, n):
+    """a binder (`for` / `let` / `if let`) BEFORE the first two clauses, the second clause repeating the binder's variable: `for z in [..], foo(x, y), bar(y, z)`.
+    The repeated variable is an equality test against bar's column; the two clauses look like a simple join, which must NOT be evaluated in swapped order
+    (bar iterated first would re-bind z).  Inputs make foo's join index larger than bar (the swapped branch is chosen by len_estimate at run time)."""
+    out = []
+    for i in range(n):
+        r = rng.fork(f"bj_{i}")
+        p = {"rels": [{"arity": 2}, {"arity": 2}, {"arity": 3}, {"arity": 2}], "macros": [], "rules": []}
+        c = r.range(0, 3)
+        binder = [("for", 9, ("list", [c, c + 1])), ("let", 9, c), ("iflet", 9, ("somex", c)), ("for", 9, ("range", 0, 2))][i % 4]
+        second = [("v", 1), ("v", 9)] if i % 3 else [("v", 9), ("v", 1)]
+        p["rules"].append({"heads": [(2, [("var", 0), ("var", 1), ("var", 9)])], "body": [binder, ("cl", 0, [("v", 0), ("v", 1)], []), ("cl", 1, second, [])]})
+        p["rules"].append({"heads": [(3, [("var", 0), ("var", 2)])], "body": [("cl", 2, [("v", 0), ("_",), ("v", 2)], [])]})
+        out.append(p)
+    return out
+
+
+def bj_input(rng):
+    n = rng.range(5, 9)
+    foo = [(rng.range(0, 5), y) for y in range(n)]                       # many distinct join keys
+    bar = [(rng.range(0, n - 1), rng.range(0, 5)) for _ in range(rng.range(1, 3))]
+    if rng.chance(1, 2): bar = [(b, a) for a, b in bar]
+    return {0: foo, 1: list(dict.fromkeys(bar)), 2: [], 3: []}
+
+
 def build(rng, tier):
     quick = tier == "quick"
     sel, have = sgen.select(rng.fork("c07"), sgen.gen_c07_program, sgen.C07_TAGS, 3 if quick else 12, 14 if quick else 70)
@@ -181,6 +206,10 @@ def build(rng, tier):
             inp[3] = []; inp[4] = []
             inputs.append(inp)
         add(f"n{i}", p, q, "f9-stream", inputs, cls="F9" if f9_sites(p) else None, bug=lambda inp, p=p: f9_bugspec(p, inp))
+    for i, p in enumerate(bj_programs(rng.fork("bj"), 4 if quick else 12)):
+        q = S.expand_spec(p)
+        inputs = [bj_input(rng.fork(f"bj_{i}i{j}")) for j in range(6 if quick else 16)]
+        add(f"b{i}", p, q, "binder-join-stream", inputs)
     for i, (p, names, shape) in enumerate(f10_programs(rng.fork("f10"), 3 if quick else 9)):
         q = S.expand_spec(p)
         nm = eng.Names(var=lambda n, names=names: names.get(n, f"v{n}"))
